@@ -263,6 +263,8 @@ static exprNode* parseExpr(const std::string &src) {
   tokenVector tokens;
   for (size_t i = 0; i < raw.size(); ++i) {
     token_t *t = raw[i];
+    // parser_t's token stream drops newline tokens (newlineTokenFilter) before any expression is parsed
+    if (t && (t->type() & tokenType::newline)) { delete t; continue; }
     const primitive_t *bt = NULL;
     if (t && (t->type() & tokenType::identifier)) bt = builtinType(t->to<identifierToken>().value);
     if (!bt) { tokens.push_back(t); continue; }
